@@ -57,6 +57,37 @@ pub fn flow_recv(method: &Method, v10: bool, extra: &[(&str, &str)]) -> Result<F
     }
 }
 
+/// POST with `Expect: 100-continue` whose interim 100 is read while awaiting it; the (empty) body is then sent.
+pub fn flow_recv_saw_100(v10: bool, interim: &[u8]) -> Result<Flow<(), RecvResponse>, String> {
+    let req = Request::builder()
+        .method(Method::POST)
+        .uri("http://h.test/p")
+        .version(if v10 { Version::HTTP_10 } else { Version::HTTP_11 })
+        .header("expect", "100-continue")
+        .header("content-length", "0")
+        .body(())
+        .map_err(|e| e.to_string())?;
+    let mut f = Flow::new(req).map_err(|e| format!("Flow::new: {:?}", e))?.proceed();
+    let mut out = [0u8; 1024];
+    f.write(&mut out).map_err(|e| format!("head write: {:?}", e))?;
+    match f.proceed().map_err(|e| format!("SendRequest::proceed: {:?}", e))? {
+        Some(SendRequestResult::Await100(mut a)) => {
+            let n = a.try_read_100(interim).map_err(|e| format!("try_read_100: {:?}", e))?;
+            if n != interim.len() {
+                return Err(format!("interim 100: {} of {} bytes consumed", n, interim.len()));
+            }
+            match a.proceed().map_err(|e| format!("Await100::proceed: {:?}", e))? {
+                ureq_proto::client::flow::Await100Result::SendBody(mut f) => {
+                    f.write(&[], &mut out).map_err(|e| format!("empty body write: {:?}", e))?;
+                    f.proceed().ok_or_else(|| "empty body not finished".to_string())
+                }
+                ureq_proto::client::flow::Await100Result::RecvResponse(_) => Err("100 seen but the flow wants the response".into()),
+            }
+        }
+        _ => Err("expected Await100 after the head".into()),
+    }
+}
+
 pub fn call_recv(method: &Method, v10: bool) -> Result<Call<CallRecvResponse, ()>, String> {
     let mut b = Request::builder()
         .method(method.clone())
@@ -122,6 +153,78 @@ impl Reader {
                     Err(e) => Err(format!("into_body: {:?}", e)),
                 }
             }
+        }
+    }
+
+    /// Routes into the body state of a flow that differ in what happened before the head:
+    /// 0 plain GET; 1 POST with Expect, the caller gave up waiting, and the late `100 Continue` sits in the same window as the head;
+    /// 2 the same but the 100 arrives in a call of its own; 3 POST with Expect, the 100 was seen while awaiting it;
+    /// 4 the head arrives in two pieces (the first piece is re-presented, as nothing of it is consumed).
+    /// The caller learns where the head ends only from the reported counts, so they must add up to the bytes before the body.
+    pub fn new_route(api: Api, route: usize, req_v10: bool, head: &[u8]) -> Result<Reader, String> {
+        if api == Api::Call || route == 0 {
+            return Reader::new(api, &Method::GET, req_v10, head);
+        }
+        const C100: &[u8] = b"HTTP/1.1 100 Continue\r\n\r\n";
+        let mut f = match route {
+            1 | 2 => flow_recv(&Method::POST, req_v10, &[("expect", "100-continue")])?,
+            3 => flow_recv_saw_100(req_v10, C100)?,
+            _ => flow_recv(&Method::GET, req_v10, &[])?,
+        };
+        let mut win: Vec<u8> = vec![];
+        let pieces: Vec<&[u8]> = match route {
+            1 => {
+                win.extend_from_slice(C100);
+                win.extend_from_slice(head);
+                vec![&win[..]]
+            }
+            2 => vec![C100, head],
+            4 => {
+                win.extend_from_slice(head);
+                vec![&head[..head.len() / 2], &win[..]]
+            }
+            _ => vec![head],
+        };
+        let expect: usize = match route {
+            1 | 2 => C100.len() + head.len(),
+            _ => head.len(),
+        };
+        let mut total = 0usize;
+        let mut got = false;
+        for piece in pieces {
+            let mut pos = 0usize;
+            for _ in 0..4 {
+                let (n, r) = f.try_response(&piece[pos..]).map_err(|e| format!("route {}: try_response failed: {:?}", route, e))?;
+                if n > piece.len() - pos {
+                    return Err(format!("route {}: try_response consumed {} of {} bytes", route, n, piece.len() - pos));
+                }
+                pos += n;
+                total += n;
+                if r.is_some() {
+                    got = true;
+                    break;
+                }
+                if n == 0 {
+                    break;
+                }
+            }
+            if got {
+                break;
+            }
+        }
+        if !got {
+            return Err(format!("route {}: no response although the whole head was offered", route));
+        }
+        if total != expect {
+            return Err(format!(
+                "route {}: {} server bytes reported consumed up to the end of the head, but {} precede the body: the body would be read from the wrong offset",
+                route, total, expect
+            ));
+        }
+        match f.proceed() {
+            Some(RecvResponseResult::RecvBody(b)) => Ok(Reader::Flow(b)),
+            Some(_) => Err("flow did not enter the body state".into()),
+            None => Err("flow cannot proceed after the head".into()),
         }
     }
 
